@@ -328,7 +328,7 @@ def run(scn):
                         break
                     continue
                 faulted = len(w.fired_list) > fired_before
-                write_fault = any(f['site'] in ('mkstemp', 'os.write', 'os.close', 'os.rename') for f in w.fired_list[fired_before:])
+                write_fault = any(f['site'] in ('mkstemp', 'os.write', 'os.close', 'os.rename', 'file.write', 'file.close') for f in w.fired_list[fired_before:])
                 read_fault = faulted and not write_fault
                 corrupt_now = corrupt_active
                 shapes.append((b['kind'], res.split(':')[0], bool(b.get('dryRun')), faulted))
